@@ -107,6 +107,9 @@ def strip_comments(src):
         elif src.startswith("--", i):
             while i < n and src[i] != "\n":
                 i += 1
+        elif src.startswith("'\"'", i):       # the character literal '"' opens no string
+            out.append("' '")
+            i += 3
         elif src[i] == '"':
             j = i + 1
             while j < n and src[j] != '"':
